@@ -210,6 +210,7 @@ def correspond(ctx):
         ctx.violation('correspondence:Earley/Expected.expected_at vs UnexpectedCharacters.allowed',
                       dict(m, no_longer_checks='expected set of the Earley model vs lark'), False,
                       'model and lark disagree on the expected set after %d tokens of %r (the viable-prefix oracle agrees with lark)' % (m['consumed'], m['text']))
+    ignore_stream(ctx)
     custom_lexer_stream(ctx)
     # CYK: ParseError, never something else
     try:
@@ -245,6 +246,82 @@ def correspond(ctx):
                                              'reported_offset': pos, 'first_offending_offset': 1}, True,
                               'non-productive rule x: "c" x: error reported at offset %s, first offending token is at 1' % pos,
                               key='F10:nonproductive-rule-delays-error')
+
+
+def ignore_stream(ctx):
+    """Grammars with `%ignore " "`: ignored text before, between and after the tokens (in particular a truncated input that
+    ends in ignored text must still be reported as UnexpectedEOF / $END with the right continuation set)."""
+    from lark.exceptions import GrammarError, UnexpectedInput, UnexpectedCharacters, UnexpectedToken, UnexpectedEOF
+    rng = ctx.rng
+    for gi in range(ctx.scale(25, 250)):
+        rules, ts = C.gen_context_cfg(rng) if gi % 3 == 2 else C.gen_cfg(rng)
+        prod = C.productive(rules, ts)
+        if any(a not in prod or any(x not in prod for x in rhs) for a, rhs in rules):
+            continue
+        reach = C.reachable(rules)
+        rules = [r for r in rules if r[0] in reach]
+        ts_used = [t for t in ts if any(t in rhs for _, rhs in rules)]
+        if not ts_used:
+            continue
+        g = C.to_lark(rules, ts_used) + '%ignore " "\n'
+        lalr_ok = lalr_conflict_free(rules, ts_used)
+        words = [w for n in range(0, 5) for w in itertools.product(ts_used, repeat=n)]
+        rng.shuffle(words)
+        for parser, lexer in ENGINES:
+            if parser == 'lalr' and not lalr_ok:
+                continue
+            try:
+                p = build(g, parser, lexer)
+            except (GrammarError, Timeout):
+                continue
+            for w in words[:ctx.scale(25, 60)]:
+                toks = list(w)
+                if C.accepts(rules, toks):
+                    continue
+                # spread blanks: before, between and after the tokens
+                gaps = [' ' * rng.choice([0, 0, 1, 2]) for _ in range(len(toks) + 1)]
+                if rng.random() < 0.6:
+                    gaps[-1] = ' ' * rng.randint(1, 2)
+                text = gaps[0]
+                offs = []
+                for t, gap in zip(toks, gaps[1:]):
+                    offs.append(len(text))
+                    text += t.lower() + gap
+                vl = C.viable_len(rules, ts_used, toks)
+                try:
+                    with_timeout(lambda: p.parse(text))
+                    msg = 'accepted a non-sentence'
+                except Timeout:
+                    msg = 'hang'
+                except UnexpectedInput as e:
+                    msg = None
+                    if vl == len(toks):
+                        if parser == 'earley' and not isinstance(e, UnexpectedEOF):
+                            msg = 'proper prefix of a sentence (ending in ignored text: %r): expected UnexpectedEOF, got %s' % (
+                                gaps[-1], type(e).__name__)
+                        elif parser == 'lalr' and not (isinstance(e, UnexpectedToken) and e.token.type == '$END'):
+                            msg = 'proper prefix of a sentence: expected UnexpectedToken($END), got %s' % type(e).__name__
+                        pos = len(toks)
+                    else:
+                        if isinstance(e, UnexpectedEOF) or (isinstance(e, UnexpectedToken) and e.token.type == '$END'):
+                            msg = 'end-of-input error although token %d is the first offending one' % vl
+                        else:
+                            at = e.pos_in_stream if isinstance(e, UnexpectedCharacters) else e.token.start_pos
+                            if at != offs[vl]:
+                                msg = 'error reported at offset %s, the first offending token starts at %d' % (at, offs[vl])
+                        pos = vl
+                    if msg is None and parser == 'earley' and lexer != 'basic':
+                        legal = C.next_terminals(rules, ts_used, toks[:pos]) or set()
+                        got = set(getattr(e, 'allowed', None) or getattr(e, 'expected', None) or [])
+                        if got != legal:
+                            msg = 'dynamic Earley with %%ignore: expected/allowed %s, legal continuations %s' % (sorted(got), sorted(legal))
+                except Exception as e:  # noqa
+                    msg = 'raised %s instead of an UnexpectedInput subclass' % type(e).__name__
+                ctx.count('rejections-ignore', key=(g, parser, lexer, text), nontrivial=vl >= 1,
+                          trailing_ignored=bool(gaps[-1]), eof_case=(vl == len(toks)))
+                if msg:
+                    ctx.violation('rejection-ignore', {'grammar': g, 'parser': parser, 'lexer': lexer, 'text': text, 'kind': 'ignore',
+                                                       'rules': [[a, list(r)] for a, r in rules], 'terminals': ts_used}, True, msg)
 
 
 def custom_lexer_stream(ctx):
@@ -377,6 +454,13 @@ def custom_lexer_stream(ctx):
 
 def replay(ctx, case):
     w = case['witness']
+    if w.get('kind') == 'ignore':
+        c2 = type(ctx)(ctx.prop, ctx.tier, ctx.seed)
+        try:
+            ignore_stream(c2)
+            return any(v['stage'] == 'rejection-ignore' for v in c2.violations)
+        finally:
+            c2.cleanup()
     if w.get('kind') in ('custom-lexer', 'postlex-split'):
         c2 = type(ctx)(ctx.prop, ctx.tier, ctx.seed)
         try:
